@@ -10,10 +10,18 @@ use url::Url;
 
 pub fn response(status: u16, location: Option<&[u8]>) -> Vec<u8> {
     let mut w = format!("HTTP/1.1 {} X\r\n", status).into_bytes();
+    // fields that also name a URL but are not `Location` (one response in three): they never stand in for it
+    let decoys = (status as usize + location.map_or(1, |l| l.len())) % 3 == 0;
+    if decoys {
+        w.extend_from_slice(b"Content-Location: /content-location\r\nRefresh: 0; url=/refresh\r\n");
+    }
     if let Some(l) = location {
         w.extend_from_slice(b"Location: ");
         w.extend_from_slice(l);
         w.extend_from_slice(b"\r\n");
+    }
+    if decoys {
+        w.extend_from_slice(b"Link: </link>; rel=\"canonical\"\r\nURI: /uri\r\nX-Location: /x-location\r\n");
     }
     w.extend_from_slice(b"Content-Length: 0\r\n\r\n");
     w
@@ -230,6 +238,14 @@ pub fn generate_chains(seed: u64, n: usize, proxy_focus: bool, tunnel_focus: boo
                 let cur_scheme = urls.last().unwrap().split("://").next().unwrap().to_string();
                 let next_scheme = next.split("://").next().unwrap().to_string();
                 let loc = if cur_scheme == next_scheme && rng.chance(1, 3) { next[next_scheme.len() + 1..].to_string() } else { next.clone() };
+                // the server may put credentials and a fragment into the Location: neither belongs in the next
+                // request's target (absolute-form through a proxy included)
+                let loc = match rng.below(5) {
+                    0 if loc.contains("://") => loc.replacen("://", "://bob:s3cret@", 1),
+                    1 => format!("{}#section-2", loc),
+                    2 if loc.contains("://") => format!("{}#a?b=c", loc.replacen("://", "://carol@", 1)),
+                    _ => loc,
+                };
                 hops.push((*rng.pick(&[301u16, 302, 303, 307, 308, 307, 308]), Some(loc.into_bytes())));
                 urls.push(next);
             }
